@@ -46,6 +46,7 @@ CONSTANTS
   Askers,         \* C14: user names that appear as searcher (may contain Me)
   Queries,        \* C14: abstract queries
   Hits,           \* C14: pairs <<asker, query>> for which Matches(asker, query) is non-empty
+  HitsX,          \* C14: the same while server-excluded search phrases are in force (a subset of Hits)
   MaxSearches,    \* C14: bound on search events (0 = C13 only)
   FixReannounce,  \* F13-1: parent announces new level/root -> server is told as well
   FixChildParent, \* F13-2: an accepted child that announces level/root never becomes the parent
@@ -81,11 +82,13 @@ VARIABLES
   \* ---- C14
   slog,        \* Seq of [src, carrier, u, q, kids, sess, search]  search events in arrival order
   fwd,         \* [P -> Seq of indices into slog]  search messages written to p's connection
-  replies      \* Seq of indices into slog: search replies sent (to slog[k].u, ticket of k, our name, Matches)
+  replies,     \* Seq of indices into slog: search replies sent (to slog[k].u, ticket of k, our name, Matches)
+  phr          \* BOOLEAN: the server sent a non-empty list of excluded search phrases (results whose path
+               \* contains one are not reported: Matches shrinks from Hits to HitsX)
 
 treevars == <<conn, lvl, root, parent, children, potential, accept, maxc, session, params,
               toldServer, toldChild, pc, wait, addPend, slow, spc, rwait, nev>>
-srchvars == <<slog, fwd, replies>>
+srchvars == <<slog, fwd, replies, phr>>
 vars == <<treevars, srchvars>>
 
 NoTold == [level |-> NoLvl, root |-> None]
@@ -114,6 +117,7 @@ Init ==
   /\ slog = <<>>
   /\ fwd = [p \in P |-> <<>>]
   /\ replies = <<>>
+  /\ phr = FALSE
 
 ----------------------------------------------------------------------------
 \* Reference semantics shared with the trace spec
@@ -370,16 +374,28 @@ SessionInit ==
 ----------------------------------------------------------------------------
 \* C14: search requests (distributed.py:395-412, 486-506; search/manager.py:185-243, 340-366)
 
+\* The current children of the statement are the peers whose distributed connection we accepted as
+\* child and that is still open; in this design a child leaves `children` only through the CLOSED
+\* handler of its connection, so that is `children` minus the connections already closing.
 OpenKids == {c \in children : Open(c)}
-Answered(u, q, own) == session /\ <<u, q>> \in Hits /\ ~own
+CurHits(x) == IF x THEN HitsX ELSE Hits
+Answered(u, q, own) == session /\ <<u, q>> \in CurHits(phr) /\ ~own
 
 Handle(src, carrier, u, q, isSearch, forward, answer) ==
   LET k == Len(slog) + 1 IN
     /\ slog' = Append(slog, [src |-> src, carrier |-> carrier, u |-> u, q |-> q, kids |-> OpenKids,
-                             sess |-> session, search |-> isSearch])
+                             sess |-> session, search |-> isSearch, phr |-> phr])
     /\ fwd' = [p \in P |-> IF forward /\ p \in OpenKids THEN Append(fwd[p], k) ELSE fwd[p]]
     /\ replies' = IF answer THEN Append(replies, k) ELSE replies
-    /\ UNCHANGED treevars
+    /\ UNCHANGED <<treevars, phr>>
+
+\* ExcludedSearchPhrases from the server (search/manager.py _on_excluded_search_phrases): b = the list is
+\* not empty.  Which results remain is a matter of Matches (C07/C08); here it only moves Hits to HitsX.
+ExcludedPhrases(b) ==
+  /\ MaxSearches > 0 /\ "ExcludedPhrases" \notin Disabled
+  /\ session /\ spc = "idle" /\ b # phr
+  /\ phr' = b
+  /\ UNCHANGED <<treevars, slog, fwd, replies>>
 
 \* ServerSearchRequest while we are a branch root (no parent)
 ServerSearch(u, q) ==
@@ -410,6 +426,7 @@ Next ==
   \/ \E am \in AcceptMax : UserStats(am)
   \/ \E k \in {"minspeed", "ratio"} : ParamMsg(k)
   \/ ResetDistributed \/ SessionLost \/ SessionInit
+  \/ \E b \in BOOLEAN : ExcludedPhrases(b)
   \/ \E u \in Askers, q \in Queries : ServerSearch(u, q)
   \/ \E p \in P, u \in Askers, q \in Queries : DistSearch(p, u, q)
   \/ \E p \in P, c \in {"search", "other"}, u \in Askers, q \in Queries : LegacyWrapped(p, c, u, q)
@@ -469,7 +486,8 @@ Count(s, x) == Cardinality({i \in DOMAIN s : s[i] = x})
 
 \* who must receive search k: the live children at the time it was handled - unless it is our own
 ExpectedFan(k) == IF slog[k].search /\ slog[k].u # Me THEN slog[k].kids ELSE {}
-ExpectedReply(k) == slog[k].search /\ slog[k].u # Me /\ slog[k].sess /\ <<slog[k].u, slog[k].q>> \in Hits
+ExpectedReply(k) == slog[k].search /\ slog[k].u # Me /\ slog[k].sess
+                    /\ <<slog[k].u, slog[k].q>> \in CurHits(slog[k].phr)
 
 ForwardExactlyOnce ==
   \A k \in DOMAIN slog : \A p \in P : Count(fwd[p], k) = IF p \in ExpectedFan(k) THEN 1 ELSE 0
